@@ -58,29 +58,15 @@ def _dominating_tests(fnode, target):
 
 def _positive_guard(test, polarity, name):
     """does (test == polarity) imply name > 0 ?"""
-    if not polarity:
-        # else branch of `name == 0` / `not name` / `name <= 0`
-        s = src(test).replace(" ", "")
-        return s in (f"{name}==0", f"not{name}", f"{name}<=0", f"{name}<1")
-    for t in (test.values if isinstance(test, ast.BoolOp) and isinstance(test.op, ast.And) else [test]):
-        if isinstance(t, ast.Compare):
-            ops = t.ops
-            items = [t.left] + t.comparators
-            for i, op in enumerate(ops):
-                l, r = src(items[i]), src(items[i + 1])
-                if isinstance(op, ast.Lt) and l == "0" and r == name:
-                    return True
-                if isinstance(op, ast.Gt) and l == name and r == "0":
-                    return True
-                if isinstance(op, ast.GtE) and l == name and r == "1":
-                    return True
-                if isinstance(op, ast.LtE) and l == "1" and r == name:
-                    return True
-                if isinstance(op, ast.NotEq) and ((l == name and r == "0") or (l == "0" and r == name)):
-                    return True
-        elif isinstance(t, ast.Name) and t.id == name:
-            return True
-    return False
+    from engine.astutil import conjuncts, parse_cond
+
+    pos = [parse_cond(f"{name} > 0"), parse_cond(f"{name} >= 1"), parse_cond(f"{name} != 0"), parse_cond(f"{name}")]
+    nonpos = [parse_cond(f"{name} == 0"), parse_cond(f"not {name}"), parse_cond(f"{name} <= 0"), parse_cond(f"{name} < 1")]
+    c = conjuncts(test)
+    if polarity:
+        return any(p <= c for p in pos)
+    # else-branch of a test that is exactly "name is not positive"
+    return any(c == q for q in nonpos)
 
 
 def check_negated_index(prog, ctx):
